@@ -52,6 +52,9 @@ def ast_from_string(value: str) -> datetime.datetime | str:
     except ValueError as err:
         logging.warning('Failed to parse availabilityStartTime: %s', err)
         raise err
+    if not isinstance(value, datetime.datetime):
+        # an empty string, a time of day or a duration is not a start time
+        raise ValueError(f'availabilityStartTime must be a date-time: {value}')
     return value
 
 def ast_to_string(value: datetime.datetime | str | None) -> str:
